@@ -122,7 +122,7 @@ func c21Run(r *simkit.Run) {
 	// the order in which the parallel batches of a permanent merge reach the disk: random walk, or priorities (PCT)
 	r.Sched(simkit.SchedOpts{MaxSteps: 20000000, Stick: r.DrawStick(), PCT: []int{0, 1, 2, 3}[r.Draw("pct_depth", 0, 3)]})
 
-	if r.Live() > 0 {
+	if r.Unfinished() {
 		r.Fail("liveness", "database", "history did not finish")
 	}
 
